@@ -28,6 +28,11 @@ import (
 	"verif/harness/lib/srv"
 )
 
+// winStep is the window size observed at run time (stored bound after the first allocation of a
+// fresh allocator); workloads place their counts around it. It is an implementation constant, not
+// part of the property.
+var winStep = 1000
+
 type allocEv struct {
 	Inst int    `json:"inst"` // instance number (unique over the whole world, also across "crashes")
 	Mem  int    `json:"member"`
@@ -190,9 +195,14 @@ func (w *world) judge(mode string, seen map[uint64]allocEv) {
 			}
 		case path.Join(w.root, "alloc_id"):
 			v, _ := typeutil.BytesToUint64([]byte(h.Value))
-			if v != curAlloc+1000 {
-				r.Violation("alloc_id-step-not-1000:"+mode, fmt.Sprintf("stored window bound went from %d to %d", curAlloc, v), wit(map[string]interface{}{"history": hs}))
+			// the window size is an implementation constant; the property only needs the stored bound to
+			// move strictly forward (a repeated or smaller bound hands a window out twice)
+			if v <= curAlloc {
+				r.Violation("alloc_id-not-strictly-increasing:"+mode, fmt.Sprintf("stored window bound went from %d to %d", curAlloc, v), wit(map[string]interface{}{"history": hs}))
 				return
+			}
+			if curAlloc != 0 || len(allocVals) > 0 {
+				r.Count(fmt.Sprintf("window_step_%d", v-curAlloc), 1)
 			}
 			curAlloc = v
 			allocVals = append(allocVals, v)
@@ -232,8 +242,8 @@ func (w *world) judge(mode string, seen map[uint64]allocEv) {
 				r.Violation("window-extended-by-non-leader:"+mode, fmt.Sprintf("member %d extended the window to %d at revision %d while the leader record was %q", mi, v, rpc.Rev, ld), wit(map[string]interface{}{"rpc": rpc, "history": hs}))
 				return
 			}
-			if prev+1000 != v {
-				r.Violation("window-extended-from-stale-read:"+mode, fmt.Sprintf("member %d wrote bound %d at revision %d while the stored bound was %d", mi, v, rpc.Rev, prev), wit(map[string]interface{}{"rpc": rpc, "history": hs}))
+			if v <= prev {
+				r.Violation("window-extended-from-stale-read:"+mode, fmt.Sprintf("member %d wrote bound %d at revision %d while the stored bound was already %d", mi, v, rpc.Rev, prev), wit(map[string]interface{}{"rpc": rpc, "history": hs}))
 				return
 			}
 		}
@@ -266,7 +276,7 @@ func (w *world) randomHistory(rng *rand.Rand) string {
 	for s := 0; s < steps; s++ {
 		switch k := rng.Intn(10); {
 		case k < 5: // burst of allocs on one or several instances, around the window size
-			cnt := []int{1, 3, 999, 1000, 1001, 2500, 10}[rng.Intn(7)]
+			cnt := []int{1, 3, winStep - 1, winStep, winStep + 1, 2*winStep + winStep/2, 10}[rng.Intn(7)]
 			par := 1 + rng.Intn(3)
 			who := rng.Intn(n)
 			w.steps = append(w.steps, fmt.Sprintf("alloc(m%d x%d par%d)", who, cnt, par))
@@ -413,7 +423,7 @@ func gatedPhase(r *ev.Run, e *etcdx.Etcd) {
 // with and without the protocol's Rebase when leadership is taken. The instance that gets the
 // leadership back still holds (part of) its old in-memory window.
 func flipPhase(r *ev.Run, e *etcdx.Etcd) {
-	counts := []int{1, 999, 1000, 1001, 2001}
+	counts := []int{1, winStep - 1, winStep, winStep + 1, 2*winStep + 1}
 	n := 0
 	for _, n1 := range counts {
 		for _, n2 := range counts {
@@ -557,6 +567,19 @@ func main() {
 		r.Inconclusive("etcd: %v", err)
 		r.Finish()
 	}
+	// observe the window size
+	if w, err := newWorld(r, e, 1, fmt.Sprintf("probe%d", r.Shard)); err == nil {
+		w.setLeader(0)
+		if _, aerr := w.alloc(0); aerr == nil {
+			if resp, gerr := e.Observer.Get(context.Background(), path.Join(w.root, "alloc_id")); gerr == nil && len(resp.Kvs) == 1 {
+				if v, perr := typeutil.BytesToUint64(resp.Kvs[0].Value); perr == nil && v >= 2 && v <= 50000 {
+					winStep = int(v)
+				}
+			}
+		}
+		w.close()
+	}
+	r.Set("observed_window_size", winStep)
 	gatedPhase(r, e)
 	if r.Violations() == 0 {
 		flipPhase(r, e)
